@@ -18,9 +18,9 @@ StepVerdict(e, o2, tr) ==
    ELSE IF e.proj.has /\ e.proj.cache # Len(o2.cache) THEN "cache length"
    ELSE IF e.proj.has /\ (e.proj.auth # o2.authLen \/ e.proj.msg # o2.msgLen) THEN "cumulative lengths"
    ELSE IF e.exc = "none" /\ IsDataOp(e.op) /\ Len(e.out) # e.n THEN "output length"
-   ELSE IF e.exc = "none" /\ IsTagOp(e.op) /\ e.tag # tr.oneshot.tag THEN "tag differs from the one-shot computation"
+   ELSE IF e.exc = "none" /\ IsTagOp(e.op) /\ tr.oneshot.has /\ e.tag # tr.oneshot.tag THEN "tag differs from the one-shot computation"
    ELSE "ok"
-EndVerdict(tr) == IF accA # tr.oneshot.aad \/ accIn # tr.oneshot.inp THEN "harness: accumulated input differs"
+EndVerdict(tr) == IF ~tr.oneshot.has THEN "ok" ELSE IF accA # tr.oneshot.aad \/ accIn # tr.oneshot.inp THEN "harness: accumulated input differs"
                   ELSE IF Len(accOut) > Len(tr.oneshot.out) \/ accOut # SubSeq(tr.oneshot.out, 1, Len(accOut)) THEN "output differs from the one-shot computation"
                   ELSE "ok"
 TNext == /\ t <= Len(Traces)
@@ -30,7 +30,10 @@ TNext == /\ t <= Len(Traces)
                                               IF bad = Ok THEN EndVerdict(tr) ELSE bad[2]>>)
                /\ t' = t + 1 /\ l' = 1 /\ o' = GcmInit /\ bad' = Ok /\ accA' = <<>> /\ accIn' = <<>> /\ accOut' = <<>>
             ELSE LET e == tr.events[l]
-                     o2 == GcmStep(o, e)
+                     \* free: the recorder does not know whether the offered tag is genuine (traces of the repository's own tests):
+                     \* the model takes the observed verdict as the value of `good`
+                     e2 == IF "free" \in DOMAIN e THEN [e EXCEPT !.good = (e.exc = "none")] ELSE e
+                     o2 == GcmStep(o, e2)
                      v == StepVerdict(e, o2, tr)
                      okc == e.exc = "none"
                  IN /\ o' = o2 /\ l' = l + 1 /\ t' = t
